@@ -266,6 +266,8 @@ def updateObjName (s : State) (id : Nat) (c : Cls) (old new : Option Name) : Exc
     and `new = new_refs.get(field)` (`[]` for a missing entry / `None`). -/
 def updRefsField (id : Nat) (c : Cls) (f : Nat) (orig new : List Nat)
     (r : List Edge × List Nat) : Except Err (List Edge × List Nat) :=
+  -- if not ids and not orig_ids: continue
+  if new.isEmpty && orig.isEmpty then .ok r else
   let add := new.filter (fun t => !orig.contains t)      -- ids - orig_ids
   let del := orig.filter (fun t => !new.contains t)      -- orig_ids - ids
   let es1 := add.foldl (fun es t => es.insert ⟨t, c, f, id⟩) r.1
